@@ -108,6 +108,17 @@ theorem c02_iter_valid (t : Table) (it : Iter) (slotHash : Nat → Nat)
         (slotHash (iterNext t it).slot) = true) :=
   ⟨getNext_iterValid t _ 0 (Nat.le_refl _) slotHash hh, fun hl => getNext_iterValid t it _ hl slotHash hh⟩
 
+/-- … and `aws_hash_iter_delete` on a READY iterator inside the table (`slot < limit ≤ size`) leaves an iterator the
+translated predicate accepts with status DELETE_CALLED — the slot steps back by one, to `SIZE_MAX` from slot 0 — over a
+table of unchanged size; with `c02_inv_iter_delete` (the table invariant survives) this is the library's post-condition of
+the call. -/
+theorem c02_iter_valid_delete (t t' : Table) (it it' : Iter) (destroy : Bool) (log : List Ev) (hash : Nat)
+    (hs : it.slot < it.limit) (hl : it.limit ≤ t.size) (hw : t.size < W64)
+    (hd : iterDelete t it destroy = some (t', it', log)) :
+    t'.size = t.size ∧ it'.status = .deleteCalled ∧
+    AwsVerif.Gen.HashValid.iterValidInt it'.limit t'.size (statusCode it'.status) it'.slot hash = true :=
+  iterDelete_iterValid t t' it it' destroy log hash hs hl hw hd
+
 /-- the translated iterator predicate is not constant: READY at an empty slot, DONE away from the limit, a limit beyond the
 table and an unknown status are rejected; the underflowed slot after a delete at slot 0 is accepted -/
 example : AwsVerif.Gen.HashValid.iterValidInt 8 8 2 3 0 = false ∧ AwsVerif.Gen.HashValid.iterValidInt 8 8 2 3 5 = true ∧
@@ -467,5 +478,12 @@ example : (iterPass (runModel exH exT0 exOps).1 exPolicy).ok = true ∧
     (iterPass (runModel exH exT0 exOps).1 exPolicy).visits.length = 3 ∧
     contents (iterPass (runModel exH exT0 exOps).1 exPolicy).table = [(.mk 2 0, some 2)] ∧
     (iterPass (runModel exH exT0 exOps).1 exPolicy).log.length = 4 := by decide
+
+/-- the hypotheses of `c02_iter_valid_delete` are met on that table: the first iterator is READY inside the table and its
+deletion succeeds -/
+example :
+    let t := (runModel exH exT0 exOps).1
+    (iterBegin t).slot < (iterBegin t).limit ∧ (iterBegin t).limit ≤ t.size ∧ (iterBegin t).status = .ready ∧
+    (iterDelete t (iterBegin t) true).isSome = true := by decide
 
 end AwsVerif.Props.C02
